@@ -58,6 +58,15 @@ Model: Model/InvarianceSize.v (radius_all, radius_sub, radius_probe, reach_by, c
 C13_radius_row_perm, C13_radius_chunks, C13_radius_covers / _least, C13_reach_row_perm, C13_link_row_perm,
 C13_linked_count_all_rows(_perm, _split), C13_radius_sub_lower_bound, C13_radius_probe_small_sizes,
 C13_radius_stride_order_refuted, C13_radius_first_rows_order_refuted, C13_probe_link_refuted.
+
+The SHAPE of the patch linkage graph (scenarios "graph", props/c13_graph.py, run second): all of the above use layouts in which every patch
+is linked with every other one or patches lie on a line with about as many neighbours each, so nothing that depends on how many links a patch
+has relative to the others (the round-robin job iterator empties a dictionary of link sets in sweeps) is reached.  There: a hub linked with
+3 .. 11 patches that are not linked among themselves, two hubs, a hub with a chain leading away from it, isolated patches, layouts drawn at
+random; 4 .. 12 patches, labels a random order.  Checked on the base run and on every twin (centre list permuted, rotation, row shuffle): the
+job lists of cross- and autocorrelation against every-linked-pair-once for a linkage computed by brute force (Model/RoundRobinGraph.v
+c13_jobs_case over Model/RoundRobin.v jobs_spec), every table against a brute-force count, twin against base.  Props/C13.v C13_jobs_relabel_cross,
+C13_jobs_relabel_auto_members, C13_stop_at_one_key_star_loses, C13_stop_at_one_key_label_dependent, C13_graph_concrete.
 """
 import math
 import os
@@ -71,11 +80,15 @@ from lib import impl
 from props.c01 import offset, cluster, scale_of, to_int, thr2, chord, d2, near_tie
 from props import c13_extents as cx
 from props import c13_big
+from props import c13_graph
 
 ALLOWED_AXIOMS = []
 TRUSTED = ["rotation matrices are applied by the harness in float64; near ties are filtered with exact integer chords of the implementation's unit vectors",
            "large patches (props/c13_big.py): unit vectors, separations, the largest separation per block of 65536 rows and the brute-force pair counts "
-           "are computed by the harness in float64 numpy from the degrees it hands over; near ties are filtered on these squared chords (10^-7 relative)"]
+           "are computed by the harness in float64 numpy from the degrees it hands over; near ties are filtered on these squared chords (10^-7 relative)",
+           "linkage graphs (props/c13_graph.py): owner of a row (nearest centre), patch radii, link tests and brute-force pair counts are computed by the "
+           "harness in float64 numpy from the degrees it hands over; rows within 10^-9 (relative) of the middle between two centres, link tests within "
+           "10^-9 of equality and squared chords within 10^-9 of a scale limit make the scenario be skipped (counted)"]
 ASSUMPTIONS = ["weights are dyadic (small set times a power of two per catalog); weight factors 2^k (|k| <= 60) are exact, other factors "
                "(3, 1e-10, 1e-8, 1e10, m*10^u) are compared to 2^-40 of the largest entry wherever the base run holds a number",
                "where the base run (exact sums of dyadic numbers) holds 0/0 or x/0 - a jackknife sample that leaves nothing in a bin - the twin after "
@@ -96,6 +109,10 @@ RULE = ("cases = (base scenario, transformation in {rotation, row shuffle, centr
         "patches; given centres / patch ids; ingest chunk size drawn) x {base, rows shuffled / reversed / shifted by one / sorted / far row moved, rotation, "
         "relabelling, split of the large catalog (random, even-odd, halves)}, each with metadata of every patch against their definitions over all rows and "
         "count tables against brute force; "
+        "plus scenarios by the shape of the patch linkage graph (star with 3..11 leaves / two hubs / hub with a chain / isolated patches / drawn at random; "
+        "4..12 patches, labels in a random order; leaves sharing counted pairs with the hub or linked by its radius alone) x {base, centre list permuted "
+        "(two permutations), rotation, row shuffle}, each with the job lists of cross- and autocorrelation against every-linked-pair-once for a brute-force "
+        "linkage and every table against a brute-force count; "
         "each compared as measured and after CorrFunc.to_file/from_file (large patches: as measured); distinct by scenario seed + transformation parameters; "
         "non-trivial when the base measurement has non-zero counts")
 HEADER = "From Verif Require Import Prelude Invariance.\nOpen Scope Q_scope.\n"
@@ -382,7 +399,7 @@ def cleanup(res):
 
 def run(ctx):
     """the family with large patches first (props/c13_big.py; its shards are evaluated while the other families run, and
-    reported whatever happens to those), then everything else"""
+    reported whatever happens to those), then the shapes of the patch linkage graph (props/c13_graph.py), then everything else"""
     import threading
     import yaw
     impl.set_threads(1)
@@ -393,7 +410,18 @@ def run(ctx):
     th = threading.Thread(target=lambda: box.update(codes=ctx.shards("Cases_C13_large", c13_big.HEADER, big_terms, shard=60)))
     th.start()
     try:
-        run_small(ctx)
+        # the shape of the patch linkage graph (props/c13_graph.py): its shards are evaluated while the small families run
+        g_terms, g_report = c13_graph.run_graph(ctx, yaw)
+        ctx.log("linkage graphs: %d terms" % len(g_terms))
+        gbox = {}
+        gth = threading.Thread(target=lambda: gbox.update(codes=ctx.shards("Cases_C13_graph", c13_graph.HEADER, g_terms, shard=40)))
+        gth.start()
+        try:
+            run_small(ctx)
+        finally:
+            gth.join()
+            if gbox.get("codes") is not None:
+                g_report(gbox["codes"])
     finally:
         th.join()
         if box.get("codes") is not None:
